@@ -243,11 +243,12 @@ _be_cache = {}
 
 
 def info_border_edges(ref):
-    k = id(ref)
-    if k not in _be_cache:
-        _be_cache.clear()
-        _be_cache[k] = ref.border_edges()
-    return _be_cache[k]
+    # cached on the reference object itself (an id()-keyed cache can go stale when ids are reused)
+    be = getattr(ref, "_border_edges_cache", None)
+    if be is None:
+        be = ref.border_edges()
+        ref._border_edges_cache = be
+    return be
 
 
 def build(case):
